@@ -825,6 +825,10 @@ FIXED = [
     ("matches", "((a + b) c d), ((a + b) c e)", [[4], [2]], {}),
     ("matches", "((a + 2) (b + 3)), ((a + 2) (b + 3))", [[13], [13]], {}),
     ("solve_shapes", "a (b c), (b c) d", [[2, 6], None], {"d": 5}),
+    # defects of stage2/cse.py found while proving cseTrees_preserves_sols (docs/wp/cse.md, docs/wp/cse2.md): D20, D21
+    ("sum", "a ([c d]) [c d]", [[4, 6, 2, 3]], {}),
+    ("matches", "(a 1 d), (1 d) c, (a 1)", [[12], [2, 2], [4]], {}),
+    ("solve_shapes", "(a 1 d), (1 d) c", [[6], [3, 2]], {}),
 ]
 
 
@@ -1112,6 +1116,22 @@ def run(ctx):
         handle({"api": api, "desc": desc, "shapes": [None if s is None else list(s) for s in shapes], "params": dict(params)}, do_shrink=False)
     for case in directed:
         handle(case)
+    # D19: a user axis named like CSE's fresh axes (`cse...` expands to `cse.0`, `cse.1`) -- the same description with another
+    # axis name is the reference
+    try:
+        import einx
+        ref = einx.solve_shapes("(a b) c..., (a b)", np.zeros((6, 2, 3)), np.zeros((6,)))
+        try:
+            got = einx.solve_shapes("(a b) cse..., (a b)", np.zeros((6, 2, 3)), np.zeros((6,)))
+            bad = None if tuple(map(tuple, got)) == tuple(map(tuple, ref)) else f"returns {got} instead of {ref}"
+        except Exception as e:
+            bad = f"raises {type(e).__name__} although the same call with the axis named `c...` returns {ref}"
+        ctx.count("d19-probe")
+        if bad is not None:
+            ctx.violation('iii-must-succeed:solve_shapes("(a b) cse..., (a b)"; (6,2,3),(6); ) [axis name collides with the fresh axes of stage2/cse.py]',
+                          {"kind": "iii-must-succeed", "api": "solve_shapes", "description": "(a b) cse..., (a b)", "shapes": [[6, 2, 3], [6]], "params": {}, "detail": bad})
+    except Exception as e:   # the reference call itself fails: nothing to compare
+        ctx.count("d19-probe-unavailable:" + type(e).__name__)
     for case in directed_structural():
         ctx.count("directed-structural-cases")
         handle(case)
